@@ -17,6 +17,7 @@ from __future__ import annotations
 
 import atexit
 import itertools
+import math
 import json
 import os
 import subprocess
@@ -35,21 +36,26 @@ DRIVER = "dm_reduce"
 LEAN_MODULES = ["DaskModel.Props.C30"]
 CASE_TIMEOUT_S = 40
 LEVEL_TEXT = (
-    "PARTIAL. Proved in Lean 4 for a 1-d integer expression language (leaf, elementwise neg/abs/square, add/sub/mul/maximum "
-    "of two arrays or array and scalar, slice, rechunk, concatenate, finalize): chunks_sum (reported chunks always sum to the length of the denoted value), step_sound / "
-    "step_chunks (each rewrite the engine has in this tree — rechunk elision, FinalizeCompute → operand or "
-    "rechunk-to-one-block, Elemwise operand alignment — preserves value, shape and reported chunks), parStep_sound (a "
-    "whole simplify/lower pass accepted by the executable checker preserves the denotation) and chain_sound (any "
-    "finite sequence of passes). Every pass the real optimizer makes on generated pipelines of that subset is exported "
-    "from a query-planning child process and must be accepted by the checker. Everything else (n-d arrays, reductions, "
-    "map_blocks, stack, broadcasting, creation routines, dtype) is validated differentially against NumPy and the "
-    "classic engine, not proved; termination of the optimizer is observed (pass budget), not proved."
+    "PARTIAL. Proved in Lean 4 for a 1-d integer expression language (leaf, elementwise neg/abs/square, add/sub/mul/maximum of "
+    "two arrays or array and scalar, slice, rechunk, concatenate, finalize): chunks_sum (reported chunks always sum to the "
+    "length of the denoted value), step_sound / step_chunks (each rewrite the engine has in this tree — rechunk elision, "
+    "FinalizeCompute → operand or rechunk-to-one-block, Elemwise operand alignment — preserves value, shape and reported "
+    "chunks), parStep_sound (a whole simplify/lower pass accepted by the executable checker preserves the denotation) and "
+    "chain_sound (any finite sequence of passes); every pass the real optimizer makes on generated pipelines of that subset is "
+    "exported from a query-planning child process and must be accepted by the checker. Reductions: the depth loop of the "
+    "engine's _tree_reduce is modelled (treeDepth) — tree_depth_suffices (n_i ≤ k_i^depth on every reduced axis), "
+    "last_axis_depth_refuted (depth from the last reduced axis only is too small on a 6×2 grid); the PartialReduce chain of "
+    "the real expression (number of levels, key structure of every level) is diffed against treeDepth / treePlan, the model "
+    "for which Props/C22 proves that the tree returns the fold of all blocks. Everything else (n-d elementwise/slicing, "
+    "values of reductions, map_blocks, stack, broadcasting, creation routines, dtype) is validated differentially against "
+    "NumPy and the classic engine, not proved; termination of the optimizer is observed (pass budget), not proved."
 )
-LEVEL_NOTE = ("Trusted: Lean kernel + standard axioms; the child-side exporter that maps expression nodes to the model AST; "
-              "NumPy and the classic dask.array engine as oracles. Nodes outside the modelled subset are counted in the "
-              "evidence (branch 'outside modelled subset'), not failed.")
-TECHNIQUE = "Lean 4 proof (rule soundness + proved pass checker = translation validation of optimizer traces) + differential testing in a query-planning subprocess"
-ASSUMPTIONS = ["the exporter's mapping of FromArray/Elemwise/SliceSlicesIntegers/Rechunk/TasksRechunk/Concatenate/FinalizeComputeArray to the model AST is faithful (diffed: per-node chunks, denotation = computed value)"]
+LEVEL_NOTE = ("Trusted: Lean kernel + standard axioms; the child-side exporter that maps expression nodes to the model AST and "
+              "PartialReduce._layer() to key lists; NumPy and the classic dask.array engine as oracles. Nodes outside the modelled "
+              "subset are counted in the evidence (branch 'outside modelled subset'), not failed.")
+TECHNIQUE = "Lean 4 proof (rule soundness + proved pass checker = translation validation of optimizer traces; depth loop of the reduction tree) + differential testing in a query-planning subprocess"
+ASSUMPTIONS = ["the exporter's mapping of FromArray/Elemwise/SliceSlicesIntegers/Rechunk/TasksRechunk/Concatenate/FinalizeComputeArray to the model AST is faithful (diffed: per-node chunks, denotation = computed value)",
+               "float math.ceil(math.log(n, k)) of the depth loop is treeDepth or treeDepth + 1 (checked on every generated grid)"]
 TRUSTED = ["harness/props/_c30_child.py exporter", "NumPy and the classic array engine as oracles"]
 
 _CHILD = None
@@ -317,6 +323,10 @@ def case_tree(ctx, inp):
         ctx.fail("keepdims of the levels is not (True, …, True, keepdims)", observed=[lv["keepdims"] for lv in levels])
     if all(k >= 2 for k in split.values()):
         md, md_last = ctx.lean(Sym("treedepth"), sp, nb)
+        # the float formula itself (what the loop evaluates): the real tree must have exactly that many levels
+        fl = max([1] + [math.ceil(math.log(nb[i], split[i])) for i in split if split[i] != 1])
+        if depth != fl:
+            ctx.fail(f"the tree has {depth} levels, the depth loop max(1, ceil(log(n_i, k_i))) gives {fl}", observed=depth, expected=fl)
         if depth not in (md, md + 1):
             ctx.fail(f"depth {depth} of the PartialReduce chain is not the depth of the _tree_reduce loop ({md}, or one more "
                      "through float rounding)", observed=depth, expected=md)
